@@ -56,14 +56,15 @@ def appendLast {α} : List (List α) → α → List (List α)
 def setGroups (ev : Groups) (k : Nat) (gs : List (List MEv)) : Groups :=
   fun j => if j = k then some gs else ev j
 
-/-- `'%d' % n` -/
-def natStrAux : Nat → Nat → Str → Str
-  | 0, _, acc => acc
-  | f + 1, n, acc =>
-      let acc' := Char.ofNat (48 + n % 10) :: acc
-      if n / 10 = 0 then acc' else natStrAux f (n / 10) acc'
+/-- the decimal digit `d` (`d < 10`) -/
+def digitChar (d : Nat) : Char := Char.ofNat (48 + d)
 
-def natStr (n : Nat) : Str := natStrAux (n + 1) n []
+/-- `'%d' % n`, most significant digit first -/
+def natStrF : Nat → Nat → Str
+  | 0, n => [digitChar (n % 10)]
+  | f + 1, n => if n < 10 then [digitChar n] else natStrF f (n / 10) ++ [digitChar (n % 10)]
+
+def natStr (n : Nat) : Str := natStrF n n
 
 /-- `data.replace('[', r'\[').replace(']', r'\]')` -/
 def escBrackets (s : Str) : Str :=
@@ -133,74 +134,78 @@ def MB.format (b : MB) : Str := strip b.str
 
 /-! ### parse_msg -/
 
-/-- `(\d+)\:` after a `[` -/
-def readDigits : Str → Option Nat → Option (Nat × Str)
-  | [], _ => none
-  | c :: cs, acc =>
+/-- `(\d+)\:` after a `[`: the number and how many characters were read -/
+def readDigits : Str → Option Nat → Nat → Option (Nat × Nat)
+  | [], _, _ => none
+  | c :: cs, acc, k =>
       match digitVal c with
-      | some d => readDigits cs (some (acc.getD 0 * 10 + d))
+      | some d => readDigits cs (some (acc.getD 0 * 10 + d)) (k + 1)
       | none =>
           if c = ':' then
             match acc with
-            | some n => some (n, cs)
+            | some n => some (n, k + 1)
             | none => none
           else none
 
-/-- the first alternative `\[(\d+)\:` at the head of the string -/
-def readOpen : Str → Option (Nat × Str)
-  | '[' :: cs => readDigits cs none
+/-- the first alternative `\[(\d+)\:` at the head of the string: the number and the length of the match -/
+def readOpen : Str → Option (Nat × Nat)
+  | '[' :: cs => readDigits cs none 1
   | _ => none
 
 /-- `if mo.start() or stack[-1]: parts.append((stack[-1], string[:mo.start()]))` -/
 def addPart (top : Nat) (cur : Str) (acc : List (Nat × Str)) : List (Nat × Str) :=
   if !cur.isEmpty || top != 0 then acc ++ [(top, cur)] else acc
 
-/-- the loop of `parse_msg`: `stack` (top first), `cur` = the text since the last match
-    (reversed), `bs` = the previous character is a backslash, `acc` = parts so far -/
-def parseGo : Nat → List Nat → Str → Bool → Str → List (Nat × Str) → Except Err (List (Nat × Str))
-  | 0, _, _, _, _, acc => pure acc
-  | _ + 1, [], _, _, _, acc => pure acc
-  | _ + 1, top :: _, cur, _, [], acc =>
+/-- the loop of `parse_msg`, structural on the string: `skip` = characters of the current match
+    still to pass over, `stack` (top first), `cur` = the text since the last match (reversed),
+    `bs` = the previous character is a backslash, `acc` = parts so far -/
+def parseGo : Nat → List Nat → Str → Bool → List (Nat × Str) → Str → Except Err (List (Nat × Str))
+  | _, [], _, _, acc, _ => pure acc
+  | _, top :: _, cur, _, acc, [] =>
       pure (if cur.isEmpty then acc else acc ++ [(top, cur.reverse)])
-  | fuel + 1, top :: st, cur, bs, c :: cs, acc =>
+  | skip + 1, st, cur, bs, acc, _ :: cs => parseGo skip st cur bs acc cs
+  | 0, top :: st, cur, bs, acc, c :: cs =>
       match readOpen (c :: cs) with
-      | some (n, rest) => parseGo fuel (n :: top :: st) [] false rest (addPart top cur.reverse acc)
+      | some (n, len) => parseGo (len - 1) (n :: top :: st) [] false (addPart top cur.reverse acc) cs
       | none =>
         if c = ']' && !bs then
           let acc' := addPart top cur.reverse acc
           match st with
           | [] => if cs.isEmpty then pure acc' else .error .indexError   -- `stack[-1]` of the emptied stack
-          | _ => parseGo fuel st [] false cs acc'
-        else parseGo fuel (top :: st) (c :: cur) (c = '\\') cs acc
+          | _ => parseGo 0 st [] false acc' cs
+        else parseGo 0 (top :: st) (c :: cur) (c = '\\') acc cs
 
 /-- `parse_msg(string)` -/
-def parseMsg (s : Str) : Except Err (List (Nat × Str)) := parseGo (s.length + 1) [0] [] false s []
+def parseMsg (s : Str) : Except Err (List (Nat × Str)) := parseGo 0 [0] [] false [] s
 
 /-! ### MessageBuffer.translate -/
 
-/-- `(\w+)\)s` after `%(` -/
-def readWord : Str → Str → Option (Str × Str)
-  | [], _ => none
-  | c :: cs, acc =>
-      if isWord c then readWord cs (c :: acc)
+/-- `(\w+)\)s` after `%(`: the name and how many characters were read -/
+def readWord : Str → Str → Nat → Option (Str × Nat)
+  | [], _, _ => none
+  | c :: cs, acc, k =>
+      if isWord c then readWord cs (c :: acc) (k + 1)
       else if acc.isEmpty then none
       else
         match c, cs with
-        | ')', 's' :: rest => some (acc.reverse, rest)
+        | ')', 's' :: _ => some (acc.reverse, k + 2)
         | _, _ => none
 
-def readParam : Str → Option (Str × Str)
-  | '%' :: '(' :: cs => readWord cs []
+def readParam : Str → Option (Str × Nat)
+  | '%' :: '(' :: cs => readWord cs [] 2
   | _ => none
 
-/-- pieces of `regex.split(string)`: `.inl text` / `.inr name`, alternating, text first -/
-def splitParams : Nat → Str → Str → List (Str ⊕ Str)
-  | 0, cur, _ => [.inl cur.reverse]
-  | _ + 1, cur, [] => [.inl cur.reverse]
-  | fuel + 1, cur, c :: cs =>
+/-- pieces of `regex.split(string)`: `.inl text` / `.inr name`, alternating, text first;
+    structural on the string with a skip counter for the characters of a match -/
+def splitGo : Nat → Str → Str → List (Str ⊕ Str)
+  | _, cur, [] => [.inl cur.reverse]
+  | skip + 1, cur, _ :: cs => splitGo skip cur cs
+  | 0, cur, c :: cs =>
       match readParam (c :: cs) with
-      | some (name, rest) => .inl cur.reverse :: .inr name :: splitParams fuel [] rest
-      | none => splitParams fuel (c :: cur) cs
+      | some (name, len) => .inl cur.reverse :: .inr name :: splitGo (len - 1) [] cs
+      | none => splitGo 0 (c :: cur) cs
+
+def splitParams (s : Str) : List (Str ⊕ Str) := splitGo 0 [] s
 
 def lookupValue (vs : List (Str × TEvent)) (k : Str) : Option TEvent :=
   match vs.find? (fun p => p.1 = k) with
@@ -209,7 +214,7 @@ def lookupValue (vs : List (Str × TEvent)) (k : Str) : Option TEvent :=
 
 /-- `yield_parts(string)` -/
 def yieldParts (vs : List (Str × TEvent)) (s : Str) : Except Err (List TEvent) :=
-  (splitParams (s.length + 1) [] s).foldlM (fun acc p =>
+  (splitParams s).foldlM (fun acc p =>
     match p with
     | .inl t => pure (if t.isEmpty then acc else acc ++ [.text (unescBrackets t)])
     | .inr n =>
